@@ -21,6 +21,14 @@ func init() {
 			p.Jobs = append(p.Jobs, Job{Harness: "opset13.H_C04_matmul", Case: map[string]interface{}{"a": c[0], "b": c[1]}})
 			p.Jobs = append(p.Jobs, Job{Harness: "opset13.H_C04_matmul", Case: map[string]interface{}{"a": c[1], "b": c[0]}})
 		}
+		for _, dt := range []string{"int64", "int32"} {
+			for _, n := range []int{1, 2} {
+				p.Jobs = append(p.Jobs, Job{Harness: "opset13.H_C04_matmul_int", Case: map[string]interface{}{"n": n, "dtype": dt}})
+			}
+		}
+		for _, c := range [][2]int{{5, 2}, {7, 3}, {3, 2}, {1, 2}} {
+			p.Jobs = append(p.Jobs, Job{Harness: "opset13.H_C04_linreg_ragged", Case: map[string]interface{}{"ncoef": c[0], "targets": c[1]}})
+		}
 		// Gemm
 		type g struct {
 			m, k, n int
@@ -72,7 +80,7 @@ func init() {
 			"exact real arithmetic (float elements as reals): every element, alpha, beta, coefficient, intercept, offset and scale is a solver variable; equality with the reference is an identity over the reals (nonlinear real arithmetic)",
 			"MatMul: 33 (37 thorough) operand shape pairs of rank 1..6 with extents {1,2,3}, both orders: vector.vector, vector.matrix, matrix.vector, stacks with broadcastable and non-broadcastable batch shapes, inner-dimension mismatches; each case applies the same operator instance to the same tensors twice",
 			"Gemm: (M,K,N) in 4 (7) size triples x transA x transB x C in {absent, scalar, (N), (1,N), (M,1), (M,N), (M), rank 3, (1)} x alpha/beta symbolic or default, plus ill-shaped A",
-			"LinearRegressor: targets 1..3 x features 1..3 x intercepts present/absent x batch 1..2 (instance applied twice); Scaler: X of rank 1..3, offset/scale of length C, 1 and C+1, alike and mixed (1 with C) (instance applied twice)",
+			"MatMul on int64/int32 vectors (every element a solver variable over the full range): the exact wrapping product or a refusal; LinearRegressor with a coefficient count that is no multiple of targets: refused", "LinearRegressor: targets 1..3 x features 1..3 x intercepts present/absent x batch 1..2 (instance applied twice); Scaler: X of rank 1..3, offset/scale of length C, 1 and C+1, alike and mixed (1 with C) (instance applied twice)",
 		}
 		p.Outside = []string{"floating-point rounding (the identity is over the reals; the size of the rounding error is the standard dot-product bound and is not checked)", "extents > 3, rank > 5", "non-float element types (they must give the same result or an error: not exercised here)"}
 		p.Explanation = "MatMul/Gemm/LinearRegressor/Scaler Apply paths incl. broadcastTensors, batchedMatMul, incrementSlices executed symbolically; tensor.MatMul as a dot-product term builder over logical (stride-aware) element access"
